@@ -466,6 +466,15 @@ def c19_send_order : List String := ["Matches", "NewMessage", "remove"]
 /-- cond libs/pubsub/pubsub.go state.send -/
 def c19_send_unbuffered_cond : String := "cap(subscription.out) == 0"
 
+/-- order state/txindex/indexer_service.go IndexerService.OnStart -/
+def c19_service_order : List String := ["SubscribeUnbuffered", "Index", "AddBatch"]
+
+/-- has state/txindex/indexer_service.go IndexerService.OnStart -/
+def c19_service_subscribes_buffered : Bool := false
+
+/-- has state/txindex/indexer_service.go IndexerService.OnStart -/
+def c19_service_subscribes_unbuffered : Bool := true
+
 /-- cond libs/pubsub/pubsub.go Server.Subscribe -/
 def c19_subscribe_capacity_guard : String := "outCapacity[0] <= 0"
 
@@ -682,6 +691,6 @@ def types_MaxBlockPartsCount : Int := 1601
 /-- const types/vote_set.go MaxVotesCount -/
 def types_MaxVotesCount : Int := 10000
 
-def factCount : Nat := 227
+def factCount : Nat := 230
 
 end Tmv.Facts
